@@ -246,6 +246,53 @@ def run(ctx):
             for k in list(sys.modules):
                 if k.split(".")[0] == pkg:
                     del sys.modules[k]
+    # a load written inside the arguments of a keep: it is evaluated before the kept call. After the producer: the kept call
+    # follows the producer's edits; as an argument of the very call that produces the path: read before produced, rejected
+    for ci, order in enumerate(["after", "self"]):
+        base = tempfile.mkdtemp(prefix="ddsverif_c09a_")
+        pkg = "c9a_%d_%d" % (os.getpid(), ci)
+        try:
+            real.reset_process_state()
+            real.set_store(["local", "memory"][ci % 2], os.path.join(base, "si"), os.path.join(base, "sd"))
+            ref.call(cmd="refpaths", paths={})
+            for step, expr in enumerate(["'a1'", "'a2'", "'a2'", "'a1'"]):
+                body = {"after": "    a = dds.keep('/g/p', prod)\n    b = dds.keep('/g/r', wrap, dds.load('/g/p'))\n    c = dds.keep('/g/k', wrap, x=dds.load('/g/p'))\n",
+                        "self": "    a = None\n    b = dds.keep('/g/p', wrap, dds.load('/g/p'))\n    c = None\n"}[order]
+                if order == "self" and step == 0:
+                    body = "    a = dds.keep('/g/p', wrap, 'seed')\n    b = None\n    c = None\n"
+                src = ("import dds\nfrom ddsverif_rt import log, term\n\n"
+                       "def prod():\n    log('prod')\n    return term('prod', %s)\n\n"
+                       "def wrap(x):\n    log('wrap')\n    return term('wrap', x)\n\n"
+                       "def f0():\n%s    return term('f0', a, b, c)\n" % (expr, body))
+                os.makedirs(os.path.join(base, pkg), exist_ok=True)
+                open(os.path.join(base, pkg, "__init__.py"), "w").close()
+                with open(os.path.join(base, pkg, "main.py"), "w") as fh:
+                    fh.write(src)
+                real.load_world(base, pkg + ".main", None, accept=pkg)
+                ref.call(cmd="world", dir=base, module=pkg + ".main", extmod=None)
+                entry = {"kind": "eval", "fun": "f0"}
+                ill = order == "self" and step > 0
+                rr = None if ill else ref.call(cmd="run", entry=entry)
+                r = real.run(entry)
+                res.evaluations += 1
+                res.count("load_in_keep_arguments_steps")
+                res.nontrivial("load in keep arguments %s %d" % (order, step))
+                bad = None
+                if ill:
+                    if r["error"] is None or r["error"]["kind"] != "dds":
+                        bad = "keep('/g/p', wrap, dds.load('/g/p')) reads the path before the call that produces it: not rejected (value %r, error %s)" % (r["value"], r["error"])
+                    elif r["log"]:
+                        bad = "the rejected evaluation executed %s" % (r["log"],)
+                elif rr.get("error") is None and (r["error"] is not None or r["value"] != rr["value"]):
+                    bad = "a load in the arguments of a keep: dds gives %r (error %s), plain execution %r" % (r["value"], r["error"], rr["value"])
+                if bad:
+                    res.violations.append({"what": bad, "input": {"source": src, "step": step, "order": order}, "kf": None})
+                    break
+        finally:
+            shutil.rmtree(base, ignore_errors=True)
+            for k in list(sys.modules):
+                if k.split(".")[0] == pkg:
+                    del sys.modules[k]
     pipeline.close_ref()
     res.rule = ("all 40 combinations placement {root, helper, kept, datafn, loaded value fed to a keep} x producer {datafn, keep} x order {before, after, earlier, never}, plus 16 where the producing function already appeared in the evaluation (called / kept at another path) "
                 "(x%d with fresh random variables / stores / entry kinds), each followed by re-evaluation, producer edit, unrelated edit; one "
